@@ -9,6 +9,8 @@ pub enum MarkKind {
     CallName(String),
     DefLhs { name: String, shell: Option<String> },
     DefShell(String),
+    /// first character of a definition's right-hand side
+    RhsStart,
     NtRef(String),
     Lit(String),
     Cmd(String),
@@ -386,6 +388,7 @@ pub fn print_grammar(g: &G, st: &mut Style, order: Option<&[usize]>) -> Printed 
                 let a = if p.st.vary_assign && p.st.src.chance(1, 3) { "::=" } else { "=" };
                 p.emit(a);
                 p.ws0();
+                p.mark(MarkKind::RhsStart);
                 p.expr(e, 0, false);
             }
         }
